@@ -113,3 +113,50 @@ silent("C41", "tape-exit-release-lock-first",
 silent("C41", "qsvt-queue-single-loop",
        [("pennylane/templates/subroutines/qsvt.py", "        context.remove(self._hyperparameters[\"UA\"])\n        for op in self._hyperparameters[\"projectors\"]:\n            context.remove(op)\n",
          "        for op in [self._hyperparameters[\"UA\"], *self._hyperparameters[\"projectors\"]]:\n            context.remove(op)\n")])
+
+# ------------------------------------------------------------------------------------------ C73
+ST = "pennylane/devices/modifiers/simulator_tracking.py"
+fire("C73", "modifier_map-drops-compute_vjp", (ST, '        "compute_vjp": _track_compute_vjp,\n', ""), "R-C73-cover", "compute_vjp")
+fire("C73", "modifier_map-crossed-wrappers",
+     (ST, '        "compute_jvp": _track_compute_jvp,\n', '        "compute_jvp": _track_compute_vjp,\n'), "R-C73-cover", "compute_jvp")
+fire("C73", "jvp-update-without-record",
+     (ST, "            self.tracker.update(jvp_batches=1, jvps=len(batch))\n            self.tracker.record()\n",
+          "            self.tracker.update(jvp_batches=1, jvps=len(batch))\n"), "R-C73-pair", "compute_jvp")
+fire("C73", "vjps-count-raw-circuits",
+     (ST, "            self.tracker.update(vjp_batches=1, vjps=len(batch))", "            self.tracker.update(vjp_batches=1, vjps=len(circuits))"),
+     "R-C73-pair", "compute_vjp")
+fire("C73", "derivatives-count-unguarded",
+     (ST, "            if isinstance(circuits, QuantumScript):\n                derivatives = 1\n            else:\n                derivatives = len(circuits)\n",
+          "            derivatives = len(circuits)\n"), "R-C73-pair", "compute_derivatives")
+fire("C73", "execute-record-only-once-per-batch",
+     (ST, "                        resources=c.specs[\"resources\"],\n                    )\n                self.tracker.record()\n        return results",
+          "                        resources=c.specs[\"resources\"],\n                    )\n        return results"), "R-C73-pair", "execute")
+fire("C73", "execute-called-twice",
+     (ST, "        results = untracked_execute(self, circuits, execution_config)\n        if isinstance(circuits, QuantumScript):",
+          "        results = untracked_execute(self, circuits, execution_config)\n        if not self.tracker.active:\n            results = untracked_execute(self, circuits, execution_config)\n        if isinstance(circuits, QuantumScript):"),
+     "R-C73-pair", "execute")
+fire("C73", "update-without-active-guard",
+     (ST, "        if self.tracker.active:\n            batch = (circuits,) if isinstance(circuits, QuantumScript) else circuits\n            self.tracker.update(vjp_batches=1",
+          "        if True:\n            batch = (circuits,) if isinstance(circuits, QuantumScript) else circuits\n            self.tracker.update(vjp_batches=1"),
+     "R-C73-pair", "compute_vjp")
+fire("C73", "batches-counts-circuits",
+     (ST, "            self.tracker.update(batches=1)", "            self.tracker.update(batches=len(batch))"), "R-C73-pair", "batches")
+fire("C73", "execute-drops-shots-key",
+     (ST, "                        shots=shots,\n", ""), "R-C73-keys", "shots")
+fire("C73", "default-mixed-undecorated",
+     ("pennylane/devices/default_mixed.py", "@simulator_tracking\n@single_tape_support\nclass DefaultMixed(Device):", "@single_tape_support\nclass DefaultMixed(Device):"),
+     "R-C73-applied", "DefaultMixed")
+fire("C73", "tracking-inside-single-tape-support",
+     ("pennylane/devices/default_qubit.py", "@simulator_tracking\n@single_tape_support\nclass DefaultQubit(Device):", "@single_tape_support\n@simulator_tracking\nclass DefaultQubit(Device):"),
+     "R-C73-applied", "DefaultQubit")
+fire("C73", "tracker-totals-overwrite",
+     ("pennylane/devices/tracker.py", "self.totals[key] = value + self.totals.get(key, 0)", "self.totals[key] = value"), "R-C73-tracker", "Tracker.update")
+fire("C73", "new-entry-point-untracked",
+     ("pennylane/devices/device_api.py", "    def compute_vjp(\n        self,\n        circuits: QuantumScriptOrBatch,",
+      "    def compute_hvp(self, circuits, vectors, execution_config=None):\n        raise NotImplementedError\n\n    def compute_vjp(\n        self,\n        circuits: QuantumScriptOrBatch,"),
+     "R-C73-cover", "compute_hvp")
+silent("C73", "normalise-with-if-else",
+       [(ST, "            batch = (circuits,) if isinstance(circuits, QuantumScript) else circuits\n            self.tracker.update(jvp_batches=1, jvps=len(batch))",
+             "            if isinstance(circuits, QuantumScript):\n                batch = (circuits,)\n            else:\n                batch = circuits\n            self.tracker.update(jvp_batches=1, jvps=len(batch))")])
+silent("C73", "docstring-bullet-removed",
+       [(ST, "    * ``shots``: the number of shots\n", "")])
